@@ -44,6 +44,24 @@ def gen_cases(tier, seed):
             spec['plan']['faults'] = [{'at': f't0/s3:GetObject:{C * rng.randrange(0, 3)}#0', 'phase': 'body', 'bytes': rng.randrange(0, C),
                                        'kind': 'connreset', 'tag': 'FAULT-r'}]
         cases.append(spec)
+    # a stream upload failing or being cancelled half-way while its parts are held in the request stage: the submission thread goes on
+    # reading the stream, and what it reads must still wait for an in-memory slot
+    for i in range(40 if quick else 400):
+        C = 8
+        mem = rng.choice([1, 2])
+        cfg = dict(multipart_threshold=C, multipart_chunksize=C, max_in_memory_upload_chunks=mem, max_request_concurrency=rng.choice([1, 2]),
+                   max_request_queue_size=rng.choice([50, 1000]), max_submission_concurrency=1)
+        t = {'kind': 'upload', 'src': rng.choice(['nonseekable', 'seekable']), 'size': rng.choice([8, 10, 12]) * C + rng.choice([0, 3])}
+        spec = {'seed': rng.randrange(1 << 30), 'min_part': C, 'config': cfg, 'transfers': [t], 'family': 'trouble-midway',
+                'plan': {'gate': {'match': 's3:UploadPart', 'phase': 'before', 'policy': rng.choice(['seeded', 'lowest_last'])}}}
+        site = f't0/s3:UploadPart:{rng.choice([1, 2])}#0'
+        if rng.random() < 0.5:
+            spec['plan']['cancel'] = {'at': site, 'phase': 'after', 'how': 'future.cancel', 'from': rng.choice(['main', 'event'])}
+        else:
+            spec['plan']['faults'] = [{'at': site, 'phase': 'before', 'kind': 'exc', 'tag': 'FAULT-mid'}]
+        if rng.random() < 0.4:
+            spec['transfers'].append({'kind': 'upload', 'src': 'path', 'size': 5 * C})
+        cases.append(spec)
     # retries while the lowest part is slow: later parts deliver (part of) their data, hit a retryable stream error and are
     # requested again - the re-delivered data must not pile up beside the copy already awaiting its turn
     for i in range(40 if quick else 400):
